@@ -254,8 +254,8 @@ def check(ctx):
     blocks = []
     ok = False
     for nm in sorted({n.targets[0].id for n in body_nodes(ts.node) if isinstance(n, ast.Assign) and isinstance(n.targets[0], ast.Name)
-                      and isinstance(n.value, (ast.Dict, ast.DictComp))}):
-        cs = [x for x in _contrib(ts, nm) if x["key"] is not None and x["iter"] is not None
+                      and isinstance(n.value, (ast.Dict, ast.DictComp, ast.List, ast.ListComp))}):
+        cs = [x for x in _contrib(ts, nm) if x["iter"] is not None
               and norm(x["iter"]) in (f"{ts.params[0]}.items()", f"{ts.params[0]}")]
         if not cs:
             continue
